@@ -44,6 +44,11 @@ var KnownDeviations = []KnownDeviation{
 	{Scope: "with-clause-order-skip-limit-dropped", Dev: cyref.Deviations{WithDropsOrderSkipLimit: true}},
 	{Scope: "list-concatenation-reads-null-as-empty-list", Dev: cyref.Deviations{ListConcatenationReadsNullAsEmpty: true}},
 	{Scope: "leading-optional-match-without-match-yields-no-row", Dev: cyref.Deviations{LeadingOptionalMatchYieldsNoRow: true}},
+	{Scope: "optional-match-after-null-binding-loses-its-matches", Dev: cyref.Deviations{OptionalMatchNullBindingLosesMatch: true}},
+	{Scope: "multi-step-optional-match-inner-joins-leading-steps", Dev: cyref.Deviations{OptionalMatchInnerJoinsLeadingSteps: true}},
+	{Scope: "multi-step-optional-match-is-plain-match", Dev: cyref.Deviations{MultiStepOptionalMatchIsPlainMatch: true}},
+	{Scope: "regular-expression-match-is-unanchored", Dev: cyref.Deviations{RegexMatchIsUnanchored: true}},
+	{Scope: "quantifier-counts-null-predicate-as-false", Dev: cyref.Deviations{QuantifierPredicateNullCountsAsFalse: true}},
 	{Scope: "arithmetic-and-sum-coerce-property-through-text", Dev: cyref.Deviations{ArithmeticAndSumCoerceProperty: true}},
 }
 
@@ -67,6 +72,11 @@ func merge(a, b cyref.Deviations) cyref.Deviations {
 		WithDropsOrderSkipLimit:                    a.WithDropsOrderSkipLimit || b.WithDropsOrderSkipLimit,
 		ListConcatenationReadsNullAsEmpty:          a.ListConcatenationReadsNullAsEmpty || b.ListConcatenationReadsNullAsEmpty,
 		LeadingOptionalMatchYieldsNoRow:            a.LeadingOptionalMatchYieldsNoRow || b.LeadingOptionalMatchYieldsNoRow,
+		RegexMatchIsUnanchored:                     a.RegexMatchIsUnanchored || b.RegexMatchIsUnanchored,
+		MultiStepOptionalMatchIsPlainMatch:         a.MultiStepOptionalMatchIsPlainMatch || b.MultiStepOptionalMatchIsPlainMatch,
+		OptionalMatchInnerJoinsLeadingSteps:        a.OptionalMatchInnerJoinsLeadingSteps || b.OptionalMatchInnerJoinsLeadingSteps,
+		OptionalMatchNullBindingLosesMatch:         a.OptionalMatchNullBindingLosesMatch || b.OptionalMatchNullBindingLosesMatch,
+		QuantifierPredicateNullCountsAsFalse:       a.QuantifierPredicateNullCountsAsFalse || b.QuantifierPredicateNullCountsAsFalse,
 		ExactRangeRepeatedVariableCrossJoinsNodes:  a.ExactRangeRepeatedVariableCrossJoinsNodes || b.ExactRangeRepeatedVariableCrossJoinsNodes,
 	}
 }
@@ -218,7 +228,7 @@ func RunC01(run *core.Run, backend *SQLBackend, queries []Query, b Bounds) {
 		ensureKinds(km, kindIDs, d)
 		var evals, agree, outside, sqlErr, refUnknown, refErr, nonEmpty int64
 		firstOutside := ""
-		d.Enumerate(func(g *gm.Graph) bool {
+		judge := func(g *gm.Graph) bool {
 			evals++
 			o := stmt.eval(g, kindIDs)
 			if o.Internal {
@@ -269,7 +279,19 @@ func RunC01(run *core.Run, backend *SQLBackend, queries []Query, b Bounds) {
 				})
 			}
 			return true
-		})
+		}
+		d.Enumerate(judge)
+		if q.Source != "enum" {
+			budget := b.Budget
+			if q.Budget > 0 {
+				budget = q.Budget
+			}
+			n, truncated := WitnessGraphs(m, q.Params, d, budget, judge)
+			run.Add("witness_neighbourhood_graphs", int64(n))
+			if truncated {
+				run.Add("witness_neighbourhoods_cut_by_budget", 1)
+			}
+		}
 		run.Add("evaluations", evals)
 		run.Add("agreeing_evaluations", agree)
 		run.Add("evaluations_with_nonempty_result", nonEmpty)
